@@ -202,6 +202,7 @@ fn c09_jobs(thorough: bool) -> Vec<Job> {
                     min_bond,
                     funds,
                     amounts: vec![1, 2, 3],
+                    period: (false, 1),
                     hmax: H0 + blocks - 1,
                 },
                 memo: Default::default(),
@@ -219,6 +220,24 @@ fn c09_jobs(thorough: bool) -> Vec<Job> {
         out.push(s(2, 2, vec![3, 2], 3));
         out.push(s(2, 1, vec![3, 1], 3));
     }
+    // a zero unbonding period (claims mature in the block of the unbond), block- and time-based
+    for (time, nm) in [(false, "Height(0)"), (true, "Time(0)")] {
+        out.push(Job::S9(
+            c09::StakeHist {
+                cfg: c09::StakeCfg {
+                    name: format!("C09/stake/native/tokens_per_weight 1/min_bond 1/unbonding {nm}/funds [2, 1]/3 blocks"),
+                    tpw: 1,
+                    min_bond: 1,
+                    funds: vec![2, 1],
+                    amounts: vec![1, 2],
+                    period: (time, 0),
+                    hmax: H0 + 2,
+                },
+                memo: Default::default(),
+            },
+            None,
+        ));
+    }
     // weights that each fit 64 bits but whose sum does not: the total must not wrap (the second
     // bond may be refused); finite funds and a capped clock, run to the fixpoint
     let big: u128 = 10_000_000_000_000_000_000;
@@ -230,6 +249,7 @@ fn c09_jobs(thorough: bool) -> Vec<Job> {
                 min_bond: 1,
                 funds: vec![big, big],
                 amounts: vec![big, 1],
+                period: (false, 1),
                 hmax: H0 + 1,
             },
             memo: Default::default(),
@@ -356,6 +376,9 @@ fn c10_jobs(thorough: bool) -> Vec<Job> {
             None,
         )
     };
+    // zero unbonding period: a claim is mature in the block of its unbond
+    out.push(mk(false, 1, 1, Period::Height(0), [2, 1, 0], vec![1, 2], vec![1, 2], 3, false, "closed", None));
+    out.push(mk(false, 2, 1, Period::Time(0), [2, 1, 0], vec![1, 2], vec![1, 2], 3, false, "closed", None));
     out.push(long(false, Period::Height(400_000_000)));
     out.push(long(false, Period::Time(400_000_000)));
     if thorough {
@@ -544,6 +567,8 @@ fn c14_jobs(thorough: bool) -> Vec<Job> {
                     funds,
                     amounts,
                     cw20,
+                    period: 1,
+                    sequential_hooks: false,
                     wasm_admin: callers.contains(&7),
                     callers,
                     hooks,
@@ -566,6 +591,45 @@ fn c14_jobs(thorough: bool) -> Vec<Job> {
     out.push(s(Some(0), 3, 1, vec![3, 2], vec![1, 2], vec!["H1", "U1"], 2, false));
     // cw20 stake token: bonding arrives through the token's Send -> Receive, everything is dispatched
     out.push(s(Some(0), 2, 1, vec![3, 2], vec![1, 2], hk(2), 2, true));
+    // the contract's own address and a member's address among the hook addresses (cw4-group)
+    out.push(Job::G14(c14::GroupAdmin {
+        cfg: c14::GroupCfg {
+            name: "C14/group/admin AD/init[A:1]/members{A,B}/weights{0,1}/hooks{H1, the member A, the group itself}/1 block".to_string(),
+            admin: Some(0),
+            initial: vec![(0, 1)],
+            add_lists: c09::add_lists(2, 2, &[0, 1]),
+            remove_lists: vec![vec![], vec![0], vec![1], vec![0, 1]],
+            full_callers: vec![0],
+            callers: vec![0, 1, 2],
+            members: c14::MEMBERS.to_vec(),
+            wasm_admin: false,
+            hooks: vec!["H1", "A", "group"],
+            hmax: H0,
+        },
+    }, None));
+    // cw4-stake: its own address as hook; seven hooks registered one after the other; a zero unbonding period
+    let st = |name: &str, hooks: Vec<&'static str>, sequential: bool, period: u64, funds: Vec<u128>| {
+        Job::S14(c14::StakeAdmin {
+            cfg: c14::StakeCfg {
+                name: name.to_string(),
+                admin: Some(0),
+                tpw: 1,
+                min_bond: 1,
+                funds,
+                amounts: vec![1, 2],
+                cw20: false,
+                period,
+                sequential_hooks: sequential,
+                wasm_admin: false,
+                callers: vec![0, 2],
+                hooks,
+                hmax: H0 + 1,
+            },
+        }, None)
+    };
+    out.push(st("C14/stake/admin AD/tokens_per_weight 1/min_bond 1/funds [2, 1]/hooks{H1, the staking contract itself}/2 blocks", vec!["H1", "stakec"], false, 1, vec![2, 1]));
+    out.push(st("C14/stake/admin AD/tokens_per_weight 1/min_bond 1/funds [2, 1]/7 hooks registered in order/2 blocks", vec!["H1", "H2", "H3", "H4", "H5", "H6", "H7"], true, 1, vec![2, 1]));
+    out.push(st("C14/stake/admin AD/tokens_per_weight 1/min_bond 1/unbonding Height(0)/funds [2, 1]/hooks{H1}/2 blocks", vec!["H1"], false, 0, vec![2, 1]));
     out
 }
 
@@ -581,8 +645,8 @@ fn jobs(prop: &str, thorough: bool) -> Vec<Job> {
 fn describe(prop: &str) -> (&'static str, &'static str, &'static str) {
     match prop {
         "C09" => (
-            "cw4-group: UpdateMembers with every add list over the member alphabet x weight alphabet of size <= 2 combined with every remove list of size <= 2 (overlaps, re-adds, re-weights, removal of non-members, zero weights, empty update, a repeated address in add and in remove, weights 2^64-1), any number of updates per block, AdvanceBlock up to the block bound; initial lists [], [A:1], [A:0], [A:1,B:2] lists with a repeated member and lists naming one account in lower and UPPER case spelling; updates naming a member in UPPER case; UpdateAdmin{None} at any point of the history and a group instantiated without admin; a group of 33 members (more than one listing page). cw4-stake (kernel + bank, native denom): Bond/Unbond of 1..3 tokens by two users, Claim, AdvanceBlock; one edge configuration with two users bonding 1e19 each (sum of weights above 2^64).",
-            "reference = membership at the START of every block since instantiation. After every step, for every probe address (members and a never-member) and every height h in {0, H0-1, H0 .. now+2}: Member{addr,at_height:h} == reference (None up to and including the instantiation height, unaffected by changes in block h or later, current value for future heights); Member{addr} == current; cw4-group TotalWeight{at_height:h} likewise; TotalWeight == sum of ListMembers paged by 2; listing == true membership; ListMembers{start_after: X} for every probe address X (member or not), in one page and paged by 1, == the true members sorting after X; raw cw4::TOTAL_KEY and cw4::member_key(addr) decode to the smart-query values. For cw4-stake the history is built from the weights the contract reported when they were current (whether they are the right function of the stake is C10).",
+            "cw4-group: UpdateMembers with every add list over the member alphabet x weight alphabet of size <= 2 combined with every remove list of size <= 2 (overlaps, re-adds, re-weights, removal of non-members, zero weights, empty update, a repeated address in add and in remove, weights 2^64-1), any number of updates per block, AdvanceBlock up to the block bound; initial lists [], [A:1], [A:0], [A:1,B:2] lists with a repeated member and lists naming one account in lower and UPPER case spelling; updates naming a member in UPPER case; UpdateAdmin{None} at any point of the history and a group instantiated without admin; a group of 33 members (more than one listing page). cw4-stake (kernel + bank, native denom): Bond/Unbond of 1..3 tokens by two users, Claim, AdvanceBlock; unbonding Height(1), Height(0) and Time(0); one edge configuration with two users bonding 1e19 each (sum of weights above 2^64).",
+            "reference = membership at the START of every block since instantiation. After every step, for every probe address (members and a never-member) and every height h in {0, H0-1, H0 .. now+2}: Member{addr,at_height:h} == reference (None up to and including the instantiation height, unaffected by changes in block h or later, current value for future heights); Member{addr} == current; cw4-group TotalWeight{at_height:h} likewise; TotalWeight == sum of ListMembers paged by 2; listing == true membership; ListMembers{start_after: X} for every probe address X (member or not), in one page and paged by 1, == the true members sorting after X; raw cw4::TOTAL_KEY and cw4::member_key(addr) decode to the smart-query values. For cw4-stake the true weight of a staker is floor(stake/tokens_per_weight) of the stake its accepted bonds and unbonds add up to (None below max(min_bond,1)).",
             "the clock is capped (blocks per configuration in its name) and weights are finite, so every configuration runs to a FIXPOINT: all histories over the alphabet within the block bound, any number of updates per block",
         ),
         "C10" => (
@@ -591,7 +655,7 @@ fn describe(prop: &str) -> (&'static str, &'static str, &'static str) {
             "closed configurations (finite funds, capped clock, zero-unbond offered once per pending zero claim) run to FIXPOINT; edge configurations to the stated depth",
         ),
         "C14" => (
-            "cw4-group: UpdateAdmin{None|AD|AD2}, AddHook/RemoveHook{H1,H2(,H3)}, UpdateMembers (every add list of size <= 2 over members x weights, remove lists incl. overlap with add, a non-member, a repeated address; re-weight to the same value) by the admin, the other admin candidate, a stranger and (in two configurations) the members A and B themselves, incl. removing themselves, the hook addresses H1, H2 themselves and the chain-level (wasm) admin W of the contract; single updates naming 12 addresses; a group of 33 members (more than one listing page) whose last members in address order are re-weighted and removed; hook addresses that are the admins themselves; AdvanceBlock. cw4-stake: the same admin/hook calls (also sent by the hook addresses) plus Bond/Unbond by two users; native denom (response messages observed, not dispatched) and one configuration with a real cw20-base stake token where Send{Bond} -> Receive and every hook message are dispatched by the kernel to sink contracts and the notifications are read from the dispatch trace.",
+            "cw4-group: UpdateAdmin{None|AD|AD2}, AddHook/RemoveHook{H1,H2(,H3)}, UpdateMembers (every add list of size <= 2 over members x weights, remove lists incl. overlap with add, a non-member, a repeated address; re-weight to the same value) by the admin, the other admin candidate, a stranger and (in two configurations) the members A and B themselves, incl. removing themselves, the hook addresses H1, H2 themselves and the chain-level (wasm) admin W of the contract; single updates naming 12 addresses; a group of 33 members (more than one listing page) whose last members in address order are re-weighted and removed; hook addresses that are the admins themselves, a member, or the contract itself; seven hooks (cw4-stake); a zero unbonding period; AdvanceBlock. cw4-stake: the same admin/hook calls (also sent by the hook addresses) plus Bond/Unbond by two users; native denom (response messages observed, not dispatched) and one configuration with a real cw20-base stake token where Send{Bond} -> Receive and every hook message are dispatched by the kernel to sink contracts and the notifications are read from the dispatch trace.",
             "reference {admin, hooks, members} stepped on accepted calls of the reference admin. A call by anyone else, and every call once the admin is None, leaves the Admin, Hooks and (cw4-group) ListMembers queries unchanged; after an admin's call they equal the reference. Every accepted call whose effect changes some weight returns exactly one member_changed_hook message per hook registered at that time; every notification goes to a registered hook, carries no funds, names only addresses the call listed (the bonding sender for cw4-stake), no entry has old None and new None; folding its diffs per address in order: first old == weight before the call, each new == next old, last new == weight after the call; every address whose weight changed has an entry. cw4-stake: a bond/unbond that changes no weight sends no notification.",
             "all configurations run to FIXPOINT (single block or two blocks; finite weights, hooks, admins, funds)",
         ),
@@ -623,7 +687,7 @@ fn run(prop: &str, tier: &str) -> i32 {
     ];
     match prop {
         "C09" => rep.assumptions.push(
-            "the state oracle is a deterministic function of (world, reference): it is evaluated once per distinct state (memo keyed by the 128-bit state fingerprint), every transition still executes the real entry point; cw4-stake: the history is built from the weights the contract reported when they were current".into(),
+            "the state oracle is a deterministic function of (world, reference): it is evaluated once per distinct state (memo keyed by the 128-bit state fingerprint), every transition still executes the real entry point; cw4-stake: the true weights follow the stakes the accepted bond/unbond calls add up to".into(),
         ),
         _ => {
             rep.assumptions.push(
